@@ -506,6 +506,55 @@ struct OverlapHarness {
 	}
 };
 
+// ------------------------------------------------------------------ value categories select the prototype
+// Prototypes void(VMsg&) and void(VMsg), in this order: a non-const lvalue is callable with the first, a const lvalue and an
+// rvalue only with the second. Every entry point (invocation, dispatch in exclude-event and include-event form with a
+// getEvent policy, enqueue + process) must route by the argument's type AND value category, and hand over intact values.
+struct VMsg { int key; int tag; std::string text; };   // text lives on the heap: a moved-from VMsg shows as an empty text
+typedef eventpp::HeterTuple<void(VMsg &), void(VMsg)> HTV;
+struct PolVInclude {
+	using ArgumentPassingMode = eventpp::ArgumentPassingIncludeEvent;
+	static int getEvent(VMsg m) { return m.key; }     // BY VALUE: a library that forwards its first argument into the policy moves from it
+};
+struct ValueCategoryHarness {
+	Ctx & ctx;
+	ValueCategoryHarness(Ctx & c) : ctx(c) {}
+	void body(Bfs & b) {
+		ledger().reset();
+		b.stepEnd("start");
+		int cls = b.chooseOp(6);      // list, dispatcher (exclude form), dispatcher (include form + getEvent), queue (exclude), queue (include), queue's inherited dispatch (include)
+		int cat = ctx.ex.choose(3, 3, K_OP);     // lvalue, const lvalue, rvalue
+		std::vector<std::string> got;
+		auto byRef = [&got](VMsg & m) { got.push_back(fmt("ref:%d.%d.%zu", m.key, m.tag, m.text.size())); };
+		auto byVal = [&got](VMsg && m) { got.push_back(fmt("val:%d.%d.%zu", m.key, m.tag, m.text.size())); };   // not callable with an lvalue: binds to the second prototype
+		static const char * cn[] = {"HeterCallbackList invocation", "HeterEventDispatcher::dispatch(event, arg)", "HeterEventDispatcher::dispatch(arg) with the include-event policy", "HeterEventQueue enqueue(event, arg) + process", "HeterEventQueue enqueue(arg) + process with the include-event policy", "HeterEventQueue::dispatch(arg) with the include-event policy"};
+		static const char * an[] = {"a non-const lvalue", "a const lvalue", "an rvalue"};
+		std::string desc = fmt("%s with %s", cn[cls], an[cat]);
+		ctx.log(desc);
+		const std::string text(40, 'x');
+		VMsg lv{7, 42, text}; const VMsg clv{7, 42, text};
+		#define VERIF_CALL(F) do { if(cat == 0) F(lv); else if(cat == 1) F(clv); else F(VMsg{7, 42, text}); } while(0)
+		#define VERIF_CALL2(F, K) do { if(cat == 0) F(K, lv); else if(cat == 1) F(K, clv); else F(K, VMsg{7, 42, text}); } while(0)
+		if(cls == 0) { eventpp::HeterCallbackList<HTV> l; l.append(byRef); l.append(byVal); VERIF_CALL(l); }
+		else if(cls == 1) { eventpp::HeterEventDispatcher<int, HTV> d; d.appendListener(7, byRef); d.appendListener(7, byVal); VERIF_CALL2(d.dispatch, 7); }
+		else if(cls == 2) { eventpp::HeterEventDispatcher<int, HTV, PolVInclude> d; d.appendListener(7, byRef); d.appendListener(7, byVal); VERIF_CALL(d.dispatch); }
+		else if(cls == 3) { eventpp::HeterEventQueue<int, HTV> q; q.appendListener(7, byRef); q.appendListener(7, byVal); VERIF_CALL2(q.enqueue, 7); q.process(); }
+		else if(cls == 4) { eventpp::HeterEventQueue<int, HTV, PolVInclude> q; q.appendListener(7, byRef); q.appendListener(7, byVal); VERIF_CALL(q.enqueue); q.process(); }
+		else { eventpp::HeterEventQueue<int, HTV, PolVInclude> q; q.appendListener(7, byRef); q.appendListener(7, byVal); VERIF_CALL(q.dispatch); }
+		#undef VERIF_CALL
+		#undef VERIF_CALL2
+		std::vector<std::string> want{cat == 0 ? "ref:7.42.40" : "val:7.42.40"};
+		for(auto & g : got) ctx.obsStr(g);
+		if(got != want) {
+			std::string g; for(auto & x : got) g += x + " ";
+			bool routed = got.size() == 1 && got[0].substr(0, 8) == want[0].substr(0, 8);     // right prototype, damaged value
+			ctx.fail(routed ? "argument-not-intact" : "first-prototype-not-selected", fmt("%s reached [%s], expected [%s]%s", desc.c_str(), g.c_str(), want[0].c_str(), routed ? " (the text was moved from)" : ""));
+		}
+		if(lv.key != 7 || lv.tag != 42 || lv.text.size() != 40) ctx.fail("caller-lvalue-modified", desc + ": the caller's lvalue was modified or moved from");
+		b.stepEnd(fmt("done%d.%d", cls, cat));
+	}
+};
+
 template <typename H>
 static void addUnit(const std::string & name, int minTier, Cfg cfg, int dq, int dt) {
 	Unit u; u.name = name; u.minTier = minTier;
@@ -586,6 +635,17 @@ static struct Register {
 				rep.str["config"] = "HeterEventDispatcher/HeterEventQueue<std::string, ..., ArgumentPassingIncludeEvent>: key as lvalue/const lvalue/prvalue/std::move x 2 prototypes";
 			};
 			u.replay = [](Ctx & ctx, const std::vector<int> & seq) { InclHarness h(ctx); replayBody(ctx, seq, [&](Bfs & bb) { h.body(bb); }, nullptr); };
+			units().push_back(u);
+		}
+		{
+			Unit u; u.name = "C14/value-categories"; u.minTier = 0;
+			u.run = [](Ctx & ctx, UnitReport & rep, int) {
+				ValueCategoryHarness h(ctx); BfsOptions o; o.maxDepth = 1; Bfs b(ctx, o);
+				b.run([&](Bfs & bb) { h.body(bb); }, nullptr);
+				fillBfsReport(rep, b.res);
+				rep.str["config"] = "HeterTuple<void(VMsg&), void(VMsg)>: 6 entry points x {non-const lvalue, const lvalue, rvalue}";
+			};
+			u.replay = [](Ctx & ctx, const std::vector<int> & seq) { ValueCategoryHarness h(ctx); replayBody(ctx, seq, [&](Bfs & bb) { h.body(bb); }, nullptr); };
 			units().push_back(u);
 		}
 		{
